@@ -292,17 +292,18 @@ def run(ctx):
     # on which only the cheap mid-grey families are run
     light_idx = set()
     lcands = []
-    for i in range(ctx.pick(40, 200)):
+    for i in range(ctx.pick(100, 400)):
         prof = "ld" if i % 2 == 0 else "hq"
         ab = {"profile": prof, "lossless": False, "fragments": i % 7 == 3, "fields": i % 5 == 4}
-        size, slices = rnd.choice([((8, 4), (2, 1)), ((16, 8), (2, 2)), ((12, 6), (3, 1)), ((12, 8), (3, 2)), ((16, 4), (4, 1))])
+        # two-dimensional grids dominate: only they can tell an x/y mix-up from the right thing
+        size, slices = rnd.choice([((8, 4), (2, 1)), ((16, 8), (2, 2)), ((16, 8), (2, 2)), ((12, 6), (3, 1)), ((12, 8), (3, 2)), ((12, 8), (3, 2)), ((8, 12), (2, 3)), ((16, 4), (4, 1))])
         nsl = slices[0] * slices[1]
         sec = {"size": size, "cdf": rnd.choice([0, 1, 2]), "bits": rnd.choice(["8", "10"]), "wavelet": 4, "wavelet_ho": 4, "depth": 1, "depth_ho": 0, "slices": slices,
                "picture_bytes": nsl * rnd.choice([8, 12, 16, 33]) + rnd.randrange(0, 2 * nsl), "qm": None}
         lcands.append((ab, sec))
     lvalid = common.pmap(check_valid, lcands)
     for (ab, sec), (ok, err) in zip(lcands, lvalid):
-        if ok and len(light_idx) < ctx.pick(24, 120):
+        if ok and len(light_idx) < ctx.pick(64, 250):
             light_idx.add(len(configs))
             configs.append((ab, sec))
     from vc2_conformance.test_cases import DECODER_TEST_CASE_GENERATOR_REGISTRY
